@@ -925,11 +925,27 @@ def effective_kwargs(call, fn, flow):
     (``D["k"] = v`` under conditions).  None if some ``**`` cannot be read."""
     out = {}
     st = enclosing_stmt(call)
+    pending = []
     for k in call.keywords:
         if k.arg is not None:
             out.setdefault(k.arg, []).append(([], k.value, st))
+        else:
+            pending.append(k.value)
+    while pending:
+        D = pending.pop(0)
+        # a | b and {**a, **b, "k": v}: the union of their entries (later entries win at run time; here every alternative is listed)
+        if isinstance(D, ast.BinOp) and isinstance(D.op, ast.BitOr):
+            pending[:0] = [D.left, D.right]
             continue
-        D = k.value
+        if isinstance(D, ast.Dict) and any(x is None for x in D.keys):
+            for kk, v in zip(D.keys, D.values):
+                if kk is None:
+                    pending.append(v)
+                elif str_const(kk):
+                    out.setdefault(str_const(kk), []).append(([], v, st))
+                else:
+                    return None
+            continue
         if isinstance(D, ast.Name):
             name = D.id
             found = False
@@ -1039,6 +1055,16 @@ def top_ifexp_terms(v):
                 out.append(([t] + terms, leaf))
         return out
     return [([], v)]
+
+
+def ellipsis_2d(e):
+    """clone of e in which `X[..., k]` is written `X[:, k]` - the same selection on a two-dimensional array (use only where X is known to be 2-D)"""
+    e = clone(e)
+    for n in ast.walk(e):
+        if isinstance(n, ast.Subscript) and isinstance(n.slice, ast.Tuple) and len(n.slice.elts) == 2 and isinstance(n.slice.elts[0], ast.Constant) and n.slice.elts[0].value is Ellipsis:
+            n.slice.elts[0] = ast.Slice(lower=None, upper=None, step=None)
+    ast.fix_missing_locations(e)
+    return e
 
 
 def assume_none(expr, names):
